@@ -22,6 +22,8 @@ def configs(ctx):
             out.append(dc(op="pg", n=1, proposal=prop, wiring=wiring, outlier_prob=0.01, data_seed=12))
             out.append(dc(op="pg", n=1, proposal=prop, wiring=wiring, outlier_prob=0.3, threshold=1.0, data_seed=12))
     for prop in PROPOSALS:
+        # per-point outlier priors of different cluster sizes, as every pre-clustered run has
+        out.append(dc(op="pg", n=2, proposal=prop, wiring="run", outlier_prob=0.2, hetero=1, data_seed=35, alpha=1.4))
         out.append(dc(op="pg", n=2, proposal=prop, wiring="run", threshold=1.0, alpha=0.2, data_seed=13))
         out.append(dc(op="pg", n=2, proposal=prop, wiring="lib", threshold=0.0, alpha=3.7, N=3, outlier_prob=0.01, data_seed=14))
         out.append(dc(op="pg", n=2, proposal=prop, wiring="run", threshold=1.0, N=3, outlier_prob=0.3, samples=2, data_seed=15))
